@@ -33,6 +33,7 @@ from esp_kconfiglib.core import TYPE_TO_STR
 from esp_kconfiglib.core import Choice
 from esp_kconfiglib.core import MenuNode
 from esp_kconfiglib.core import Symbol
+from esp_kconfiglib.core import _is_base_n
 from esp_kconfiglib.core import expr_str
 from esp_kconfiglib.core import expr_value
 from esp_kconfiglib.core import is_float
@@ -227,7 +228,10 @@ def check_valid(sym: Symbol, s: str) -> Tuple[bool, Optional[str]]:
             if expr_value(cond):
                 low_s = low_sym.str_value
                 high_s = high_sym.str_value
-                if not float(low_s) <= val <= float(high_s):
+                # A bound without a numeric value (e.g. a disabled symbol) counts as zero, as in Symbol.str_value
+                low_f = float(low_s) if is_float(low_s) else 0.0
+                high_f = float(high_s) if is_float(high_s) else 0.0
+                if not low_f <= val <= high_f:
                     return False, f"{s} is outside the range {low_s} to {high_s}"
                 break
 
@@ -246,7 +250,10 @@ def check_valid(sym: Symbol, s: str) -> Tuple[bool, Optional[str]]:
         if expr_value(cond):
             low_s = low_sym.str_value
             high_s = high_sym.str_value
-            if not int(low_s, base) <= int(s, base) <= int(high_s, base):
+            # A bound without a numeric value (e.g. a disabled symbol) counts as zero, as in Symbol.str_value
+            low_i = int(low_s, base) if _is_base_n(low_s, base) else 0
+            high_i = int(high_s, base) if _is_base_n(high_s, base) else 0
+            if not low_i <= int(s, base) <= high_i:
                 return False, f"{s} is outside the range {low_s} to {high_s}"
             break
 
